@@ -8,6 +8,7 @@ import (
 	"sync"
 
 	"github.com/bytemare/secp256k1"
+	"github.com/bytemare/secp256k1/internal/field"
 	"github.com/bytemare/secp256k1/zz_verif/gen"
 	"github.com/bytemare/secp256k1/zz_verif/mon"
 	"github.com/bytemare/secp256k1/zz_verif/oracle"
@@ -25,6 +26,11 @@ type c11Case struct {
 	Seq []string `json:"seq,omitempty"`
 	// Conc: field elements mapped simultaneously, one goroutine each (Kind == "concurrent").
 	Conc []string `json:"concurrent,omitempty"`
+
+	// set by the sequence runner only (not serialised): the ONE field element object of the sequence, refilled with each
+	// input through a different loader of the field API, and which loader
+	obj *field.Element
+	via int
 }
 
 func init() {
@@ -39,7 +45,7 @@ func init() {
 		Generate: c11Generate,
 		Run:      c11Run,
 		Require: func(string) map[string]int64 {
-			return map[string]int64{"sswu": 3000, "sswu:exceptional": 3, "sswu:gx1-square": 1000, "sswu:gx1-nonsquare": 1000, "sswu:flipped": 500, "sswu:not-flipped": 500, "iso": 3000, "sswu:sgn0(u)=1": 500, "sswu:sgn0(u)=0": 500, "concurrent-batches": 4, "seq": 200, "steered:tv3": 20, "steered:u2": 20, "steered:tv6": 10, "steered:x2": 10}
+			return map[string]int64{"sswu": 3000, "sswu:exceptional": 3, "sswu:gx1-square": 1000, "sswu:gx1-nonsquare": 1000, "sswu:flipped": 500, "sswu:not-flipped": 500, "iso": 3000, "sswu:sgn0(u)=1": 500, "sswu:sgn0(u)=0": 500, "concurrent-batches": 4, "seq": 200, "seq:same-object-reloaded": 200, "steered:tv3": 20, "steered:u2": 20, "steered:tv6": 10, "steered:x2": 10}
 		},
 	})
 
@@ -126,60 +132,19 @@ func c11Generate(c *mon.Ctx) {
 		c.Structured(func() any { return cs })
 	}
 
-	// steered inputs: u solved so that an intermediate of the straight-line SSWU (u^2, tv1 = Z u^2, tv3 = tv2 + 1, which is
-	// multiplied by B' = 1771, tv6 = tv4^3, also multiplied by B') or of the isogeny (x'^2, x'^3) has a structured stored value
-	targets := gen.StoredTargets(p)
-	strideT := c.N(2, 1)
+	// steered inputs (steer.go): u resp. x' solved so that an intermediate, an inverted value or the output of the map sits
+	// on a chosen value
+	us, xs := steeredMapInputs(c)
 
-	for ti := int(c.Seed % uint64(strideT)); ti < len(targets); ti += strideT {
-		for _, which := range []string{"u2", "tv1", "tv2", "tv3", "tv6"} {
-			if u, ok := c11Steer(which, targets[ti]); ok {
-				s, w := hx(u), which
-				c.Structured(func() any { return &c11Case{Kind: "sswu", U: s, Class: "steered:" + w} })
-			}
-		}
-
-		for _, which := range []string{"x2", "x3"} {
-			if x, ok := c11Steer(which, targets[ti]); ok {
-				s, w := hx(x), which
-				c.Structured(func() any { return &c11Case{Kind: "iso", X: s, Odd: uint(ti % 2), Class: "steered:" + w} })
-			}
-		}
+	for _, su := range us {
+		s, cl := hx(su.V), su.Class
+		c.Structured(func() any { return &c11Case{Kind: "sswu", U: s, Class: cl} })
 	}
 
-	// the values SSWU and the isogeny INVERT (tv4 resp. x_den), steered onto hard inputs of a divstep inversion
-	var hard []*big.Int
-	for _, h := range gen.HardInversion(p) {
-		// once as the stored limbs, once as the canonical value (an inversion may run on either)
-		hard = append(hard, h, oracle.FromLimbs(oracle.ToMont(h, oracle.P)))
-	}
-
-	for _, t := range hard {
-		if u, ok := c11Steer("tv4", t); ok {
-			s := hx(u)
-			c.Structured(func() any { return &c11Case{Kind: "sswu", U: s, Class: "steered:tv4"} })
-		}
-
-		if x, ok := c11Steer("xden", t); ok {
-			s := hx(x)
-			c.Structured(func() any { return &c11Case{Kind: "iso", X: s, Odd: 1, Class: "steered:xden"} })
-		}
-	}
-
-	for _, t := range gen.HalfZeroTargets(p) {
-		for _, which := range []string{"tv2", "tv1", "u2"} {
-			if u, ok := c11Steer(which, t); ok {
-				s, w := hx(u), which
-				c.Structured(func() any { return &c11Case{Kind: "sswu", U: s, Class: "steered:" + w} })
-			}
-		}
-
-		for _, which := range []string{"x2", "x3"} {
-			if x, ok := c11Steer(which, t); ok {
-				s, w := hx(x), which
-				c.Structured(func() any { return &c11Case{Kind: "iso", X: s, Odd: 0, Class: "steered:" + w} })
-			}
-		}
+	for i, sx := range xs {
+		s, cl, odd := hx(sx.V), sx.Class, uint(i%2)
+		c.Structured(func() any { return &c11Case{Kind: "iso", X: s, Odd: odd, Class: cl} })
+		c.Structured(func() any { return &c11Case{Kind: "iso", X: s, Odd: 1 - odd, Class: cl} })
 	}
 
 	cr := c.SharedRng("concurrent")
@@ -203,9 +168,6 @@ func c11Generate(c *mon.Ctx) {
 	})
 }
 
-func gIsoRef(x *big.Int) *big.Int {
-	return oracle.FAdd(oracle.FAdd(oracle.FMul(oracle.FSqr(x), x), oracle.FMul(oracle.IsoA, x)), oracle.IsoB)
-}
 
 func c11Run(c *mon.Ctx, csAny any) {
 	cs := csAny.(*c11Case)
@@ -223,8 +185,15 @@ func c11Run(c *mon.Ctx, csAny any) {
 	if cs.Kind == "seq" {
 		c.Count("seq")
 
+		// the inputs are loaded, one after the other, into the same field element object (a memo inside the object that one
+		// of the loaders forgets to reset shows here), every other sequence into fresh objects
+		var obj *field.Element
+		if len(cs.Seq[0])%2 == 0 {
+			obj = field.New()
+		}
+
 		for i, h := range cs.Seq {
-			sub := &c11Case{Kind: "sswu", U: h, Class: "sequence"}
+			sub := &c11Case{Kind: "sswu", U: h, Class: "sequence", obj: obj, via: i + len(h)}
 			before := c.Res.ViolationCount
 			c11Run(c, sub)
 
@@ -267,6 +236,35 @@ func c11Run(c *mon.Ctx, csAny any) {
 		}
 
 		fu := mon.FE(u)
+
+		if cs.obj != nil {
+			fu = cs.obj
+			ub32 := [32]byte(oracle.Bytes32(u))
+
+			switch cs.via % 5 {
+			case 0:
+				fu.FromBytesNoReduce(ub32[:])
+			case 1:
+				fu.FromBytesWithReduce(ub32)
+			case 2:
+				var in [48]byte
+
+				copy(in[16:], ub32[:])
+				fu.HashToFieldElement(in)
+			case 3:
+				fu.Set(mon.FE(u))
+			default:
+				fu.Add(mon.FE(oracle.FSub(u, big.NewInt(1))), field.New().One())
+			}
+
+			c.Count("seq:same-object-reloaded")
+
+			if mon.FEVal(fu).Cmp(u) != 0 {
+				// a loader that does not load the value is the field layer's business (C12); nothing to map here
+				panic("harness: field loader did not produce the intended value")
+			}
+		}
+
 		ub := fu.E
 
 		c.Eval(1)
@@ -422,89 +420,3 @@ func c11RunConcurrent(c *mon.Ctx, cs *c11Case) {
 	c.Seen(cs.Conc)
 }
 
-// c11Steer solves for an input whose named intermediate has the stored value t.
-func c11Steer(which string, t *big.Int) (*big.Int, bool) {
-	v := oracle.FromMont(oracle.Limbs(t), oracle.P) // canonical value with stored form t
-	if v.Sign() == 0 {
-		return nil, false
-	}
-
-	fromTv2 := func(tv2 *big.Int) (*big.Int, bool) {
-		// tv2 = w^2 + w with w = Z u^2
-		disc := oracle.FAdd(big.NewInt(1), oracle.FMul(big.NewInt(4), tv2))
-
-		rt, ok := oracle.FSqrt(disc)
-		if !ok {
-			return nil, false
-		}
-
-		for _, sgn := range []*big.Int{rt, oracle.FNeg(rt)} {
-			w := oracle.FMul(oracle.FSub(sgn, big.NewInt(1)), oracle.FInv0(big.NewInt(2)))
-			if u, ok := oracle.FSqrt(oracle.FMul(w, oracle.FInv0(oracle.Z))); ok && u.Sign() != 0 {
-				return u, true
-			}
-		}
-
-		return nil, false
-	}
-
-	switch which {
-	case "u2":
-		return oracle.FSqrt(v)
-	case "tv1":
-		return oracle.FSqrt(oracle.FMul(v, oracle.FInv0(oracle.Z)))
-	case "tv2":
-		return fromTv2(v)
-	case "tv3":
-		return fromTv2(oracle.FSub(v, big.NewInt(1)))
-	case "tv6":
-		// tv6 = tv4^3, tv4 = A * (-tv2)
-		tv4, ok := oracle.FCubeRoot(v)
-		if !ok {
-			return nil, false
-		}
-
-		return fromTv2(oracle.FNeg(oracle.FMul(tv4, oracle.FInv0(oracle.IsoA))))
-	case "tv4":
-		// tv4 = A * (-tv2) is what step 25 inverts
-		return fromTv2(oracle.FNeg(oracle.FMul(v, oracle.FInv0(oracle.IsoA))))
-	case "xden":
-		// x_den = x'^2 + k21 x' + k20 = v
-		k21, k20 := oracle.K[1][1], oracle.K[1][0]
-		disc := oracle.FSub(oracle.FSqr(k21), oracle.FMul(big.NewInt(4), oracle.FSub(k20, v)))
-
-		rt, ok := oracle.FSqrt(disc)
-		if !ok {
-			return nil, false
-		}
-
-		for _, sgn := range []*big.Int{rt, oracle.FNeg(rt)} {
-			x := oracle.FMul(oracle.FSub(sgn, k21), oracle.FInv0(big.NewInt(2)))
-			if _, on := oracle.FSqrt(gIsoRef(x)); on {
-				return x, true
-			}
-		}
-
-		return nil, false
-	case "x2":
-		x, ok := oracle.FSqrt(v)
-		if !ok {
-			return nil, false
-		}
-
-		_, on := oracle.FSqrt(gIsoRef(x))
-
-		return x, on
-	case "x3":
-		x, ok := oracle.FCubeRoot(v)
-		if !ok {
-			return nil, false
-		}
-
-		_, on := oracle.FSqrt(gIsoRef(x))
-
-		return x, on
-	}
-
-	return nil, false
-}
